@@ -35,6 +35,7 @@ FN = {
     "same": lambda x: x,
     "inc": _inc,
     "pclip": lambda x: min(x, 1) if isinstance(x, int) else x,
+    "pclip0": lambda x: (1 // x and min(x, 1)) if isinstance(x, int) and not isinstance(x, bool) and x == 0 else (min(x, 1) if isinstance(x, int) else x),
     "tostr": lambda x: "s",
     "zero": lambda x: 0,
     "boom": lambda x: 1 // 0,
@@ -62,6 +63,7 @@ class World:
         self.scn = scn or S.SCENARIOS[name]
         self.counts = {}
         self.kept = []
+        self.alias_equal = False
         self.ns = {"FN": FN, "GETTERS": GETTERS, "COUNTS": self.counts, "KEPT": self.kept, "__name__": f"scn_{name}"}
         exec(S.source(self.scn), self.ns)
         FN["shared"] = lambda x: CURRENT["world"].shared
@@ -102,6 +104,9 @@ class World:
         if t == "unchanged":
             return UNCHANGED
         if t == "list":
+            if self.alias_equal:          # the SAME object at every position holding equal spec items (a caller passing [u] * n)
+                memo = {}
+                return [memo.setdefault(common.canon(x), self._gamma(x)) if x.get("t") == "obj" else self._gamma(x) for x in v["e"]]
             return [self._gamma(x) for x in v["e"]]
         if t == "tuple":
             return tuple(self._gamma(x) for x in v["e"])
@@ -208,10 +213,14 @@ class World:
     def make(self, o):
         """Receiver for abstract state o, reached by a real history: constructor, then overrides, then the reads that
         fill the caches the state has (None when that history does not reproduce the state)."""
+        # every other state (by digest) is built with equal list elements ALIASED: one object at several positions
+        self.alias_equal = int(common.digest(o["a"])[:2], 16) % 2 == 0
         try:
             obj = self.gamma({"t": "obj", "c": o["c"], "a": o["a"]})
         except Exception:  # noqa: BLE001      (a state the constructor refuses, e.g. a preparer that rejects the value)
             return None
+        finally:
+            self.alias_equal = False
         if self.scn["classes"][o["c"]].get("post_keep"):
             obj = self.kept[-1]          # the copy __post_init__ derived: judged on its own projected state
             del self.kept[:]
@@ -304,6 +313,12 @@ def call(world, obj, act, argsink):
     if op == "delprop":
         delattr(obj, act["p"])
         return obj
+    if op == "construct":          # a fresh instance of the receiver's class from keyword arguments (the receiver is a bystander)
+        return type(obj)(**kw(act["kw"]))
+    if op == "update_repl":          # update(<replacement instance>, **kw)
+        repl = world.repl          # built (and projected into act["v"]) by execute_on
+        argsink.append([repl, world.alpha(repl)])
+        return obj.update(repl, **fl, **kw(act["kw"]))
     if op == "update_top":
         return obj.update(**fl, **kw(act["kw"]))
     if op == "transform_top":
@@ -342,13 +357,20 @@ def call(world, obj, act, argsink):
             return getattr(obj, f"transform_{item}")(*pos, **fl, **kwf(act["kwf"]))
         return getattr(obj, f"without_{item}")(arg(act["key"]), **fl)
     if op == "with_item":
-        return getattr(obj, f"with_{item}")(arg(act["item"]), **fl)
+        pos = [] if act["item"]["t"] == "missing" else [arg(act["item"])]
+        return getattr(obj, f"with_{item}")(*pos, **fl, **kw(act.get("kw", [])))
     if op == "update_item":
         pos = [arg(act["voi"])] + ([] if act["item"]["t"] == "missing" else [arg(act["item"])])
-        return getattr(obj, f"update_{item}")(*pos, **fl)
+        return getattr(obj, f"update_{item}")(*pos, **fl, **kw(act.get("kw", [])))
     if op == "transform_item":
-        return getattr(obj, f"transform_{item}")(arg(act["voi"]), FN[act["f"]], **fl)
+        tf = [] if act["f"] == "none" and act.get("kwf") else [(lambda x: x) if act["f"] == "none" else FN[act["f"]]]
+        return getattr(obj, f"transform_{item}")(arg(act["voi"]), *tf, **fl, **kwf(act.get("kwf", [])))
     return getattr(obj, f"without_{item}")(arg(act["voi"]), **fl)
+
+
+def sched_untraced():
+    from . import sched
+    return sched.untraced()
 
 
 def execute(world, o, act, src="table", fault_at=None):
@@ -364,6 +386,16 @@ def execute(world, o, act, src="table", fault_at=None):
 def execute_on(world, recv, ov, act, src="table", fault_at=None, peer=None):
     """The call `act` on an existing receiver (ov: the override ghost of its properties).  Returns (event, result object)."""
     reg = Registry()
+    if act.get("op") == "update_repl":
+        # the replacement as the constructor really builds it (a non-idempotent preparer moves it away from the pool value; a value the
+        # constructor refuses is replaced by a copy of the receiver): the recorded action carries ITS projection
+        import copy as _copy
+        with sched_untraced():
+            try:
+                world.repl = world.gamma({"t": "obj", "c": act["v"]["c"], "a": act["v"]["a"]})
+            except Exception:  # noqa: BLE001
+                world.repl = _copy.deepcopy(recv)
+            act = dict(act, v=dict(world.alpha(world.repl), ov=act["v"].get("ov", {"_": False})))
     pre = world.alpha(recv)
     pre["ov"] = ov
     ids_pre = world.tokens(recv, reg)
@@ -379,7 +411,8 @@ def execute_on(world, recv, ov, act, src="table", fault_at=None, peer=None):
     fault_loc = None
     if fault_at is None:
         try:
-            result = call(world, recv, act, args)
+            with common.deadline(30):
+                result = call(world, recv, act, args)
         except Exception as e:  # noqa: BLE001
             res = type(e).__name__
     else:
